@@ -1150,3 +1150,156 @@ Definition g_gcsa_add_exdate_to_rrule {RR : Type} {EXD : Type} {PART : Type} (pa
       existing_exdates in
   let exdate_part := (mk_exdate_part existing_exdates) in
   (rr_snoc base_rrule exdate_part).
+
+(* calgebra/gcsa.py: _normalize_datetime *)
+Definition g_gcsa_normalize_datetime {TZ : Type} {DV : Type} {TIME : Type} (tz_utc : TZ) (time_min : TIME) (dv_is_datetime : DV -> bool) (dv_tzinfo : DV -> option TZ) (dv_combine : DV -> TIME -> TZ -> DV) (dv_replace_tzinfo : DV -> TZ -> DV) (dv_astimezone : DV -> TZ -> DV) (dt : DV) (zone : option TZ) : DV :=
+  let dt :=
+    if (negb (dv_is_datetime dt)) then
+      let tz := (match zone with Some zone => zone | None => tz_utc end) in
+      let dt := (dv_combine dt time_min tz) in
+      dt
+    else
+      if (is_none (dv_tzinfo dt)) then
+        let tz := (match zone with Some zone => zone | None => tz_utc end) in
+        let dt := (dv_replace_tzinfo dt tz) in
+        dt
+      else
+        dt in
+  (dv_astimezone dt tz_utc).
+
+(* calgebra/gcsa.py: _to_timestamp *)
+Definition g_gcsa_to_timestamp {TZ : Type} {DV : Type} {TIME : Type} (tz_utc : TZ) (time_min : TIME) (dv_is_datetime : DV -> bool) (dv_tzinfo : DV -> option TZ) (dv_combine : DV -> TIME -> TZ -> DV) (dv_replace_tzinfo : DV -> TZ -> DV) (dv_astimezone : DV -> TZ -> DV) (dv_replace_us : DV -> Z -> DV) (dv_timestamp : DV -> Z) (dt : DV) (zone : option TZ) : Z :=
+  let normalized := (g_gcsa_normalize_datetime tz_utc time_min dv_is_datetime dv_tzinfo dv_combine dv_replace_tzinfo dv_astimezone dt zone) in
+  (dv_timestamp (dv_replace_us normalized 0)).
+
+(* calgebra/gcsa.py: _is_all_day_event *)
+Definition g_gcsa_is_all_day_event {TZ : Type} {TZNAME : Type} {DV : Type} {TIME : Type} {TD : Type} {ATTR : Type} {EVT : Type} (tz_utc : TZ) (zoneinfo : TZNAME -> TZ) (gev_start : EVT -> DV) (gev_end : EVT -> DV) (gev_timezone : EVT -> option TZNAME) (extract_datetime : DV -> DV) (dv_is_date : DV -> bool) (dv_is_datetime : DV -> bool) (dv_has_date_attr : DV -> bool) (dv_date_attr : DV -> ATTR) (attr_is_none : ATTR -> bool) (attr_callable : ATTR -> bool) (dv_tzinfo : DV -> option TZ) (dv_astimezone : DV -> TZ -> DV) (dv_replace_tzinfo : DV -> TZ -> DV) (dv_time : DV -> TIME) (time_min : TIME) (time_neb : TIME -> TIME -> bool) (dv_sub : DV -> DV -> TD) (td_days : TD -> Z) (td_of_days : Z -> TD) (td_of_hours : Z -> TD) (td_sub : TD -> TD -> TD) (td_leb : TD -> TD -> bool) (gcsa_event : EVT) : bool :=
+  if false then
+    false
+  else
+    let start_dt := (extract_datetime (gev_start gcsa_event)) in
+    let end_dt := (extract_datetime (gev_end gcsa_event)) in
+    if ((dv_is_date start_dt) && (negb (dv_is_datetime start_dt))) then
+      if ((dv_is_date end_dt) && (negb (dv_is_datetime end_dt))) then
+        true
+      else
+        if (dv_has_date_attr (gev_start gcsa_event)) then
+          let date_attr := (dv_date_attr (gev_start gcsa_event)) in
+          if ((negb (attr_is_none date_attr)) && (negb (attr_callable date_attr))) then
+            true
+          else
+            if ((dv_is_datetime start_dt) && (dv_is_datetime end_dt)) then
+              let event_tz := (match (gev_timezone gcsa_event) with Some p1_ => (zoneinfo p1_) | None => tz_utc end) in
+              let start_local := (match (dv_tzinfo start_dt) with Some p2_ => (dv_astimezone start_dt event_tz) | None => (dv_replace_tzinfo start_dt event_tz) end) in
+              let end_local := (match (dv_tzinfo end_dt) with Some p3_ => (dv_astimezone end_dt event_tz) | None => (dv_replace_tzinfo end_dt event_tz) end) in
+              if (time_neb (dv_time start_local) time_min) then
+                false
+              else
+                let duration := (dv_sub end_local start_local) in
+                let days := (td_days duration) in
+                if (days >=? 1) then
+                  let remainder := (td_sub duration (td_of_days days)) in
+                  if (td_leb remainder (td_of_hours 1)) then
+                    true
+                  else
+                    false
+                else
+                  false
+            else
+              false
+        else
+          if ((dv_is_datetime start_dt) && (dv_is_datetime end_dt)) then
+            let event_tz := (match (gev_timezone gcsa_event) with Some p4_ => (zoneinfo p4_) | None => tz_utc end) in
+            let start_local := (match (dv_tzinfo start_dt) with Some p5_ => (dv_astimezone start_dt event_tz) | None => (dv_replace_tzinfo start_dt event_tz) end) in
+            let end_local := (match (dv_tzinfo end_dt) with Some p6_ => (dv_astimezone end_dt event_tz) | None => (dv_replace_tzinfo end_dt event_tz) end) in
+            if (time_neb (dv_time start_local) time_min) then
+              false
+            else
+              let duration := (dv_sub end_local start_local) in
+              let days := (td_days duration) in
+              if (days >=? 1) then
+                let remainder := (td_sub duration (td_of_days days)) in
+                if (td_leb remainder (td_of_hours 1)) then
+                  true
+                else
+                  false
+              else
+                false
+          else
+            false
+    else
+      if (dv_has_date_attr (gev_start gcsa_event)) then
+        let date_attr := (dv_date_attr (gev_start gcsa_event)) in
+        if ((negb (attr_is_none date_attr)) && (negb (attr_callable date_attr))) then
+          true
+        else
+          if ((dv_is_datetime start_dt) && (dv_is_datetime end_dt)) then
+            let event_tz := (match (gev_timezone gcsa_event) with Some p7_ => (zoneinfo p7_) | None => tz_utc end) in
+            let start_local := (match (dv_tzinfo start_dt) with Some p8_ => (dv_astimezone start_dt event_tz) | None => (dv_replace_tzinfo start_dt event_tz) end) in
+            let end_local := (match (dv_tzinfo end_dt) with Some p9_ => (dv_astimezone end_dt event_tz) | None => (dv_replace_tzinfo end_dt event_tz) end) in
+            if (time_neb (dv_time start_local) time_min) then
+              false
+            else
+              let duration := (dv_sub end_local start_local) in
+              let days := (td_days duration) in
+              if (days >=? 1) then
+                let remainder := (td_sub duration (td_of_days days)) in
+                if (td_leb remainder (td_of_hours 1)) then
+                  true
+                else
+                  false
+              else
+                false
+          else
+            false
+      else
+        if ((dv_is_datetime start_dt) && (dv_is_datetime end_dt)) then
+          let event_tz := (match (gev_timezone gcsa_event) with Some p10_ => (zoneinfo p10_) | None => tz_utc end) in
+          let start_local := (match (dv_tzinfo start_dt) with Some p11_ => (dv_astimezone start_dt event_tz) | None => (dv_replace_tzinfo start_dt event_tz) end) in
+          let end_local := (match (dv_tzinfo end_dt) with Some p12_ => (dv_astimezone end_dt event_tz) | None => (dv_replace_tzinfo end_dt event_tz) end) in
+          if (time_neb (dv_time start_local) time_min) then
+            false
+          else
+            let duration := (dv_sub end_local start_local) in
+            let days := (td_days duration) in
+            if (days >=? 1) then
+              let remainder := (td_sub duration (td_of_days days)) in
+              if (td_leb remainder (td_of_hours 1)) then
+                true
+              else
+                false
+            else
+              false
+        else
+          false.
+
+(* calgebra/gcsa.py: Calendar._fetch_forward *)
+Definition g_gcsa_fetch_forward {TZ : Type} {TZNAME : Type} {DV : Type} {TIME : Type} {TD : Type} {ATTR : Type} {EVT : Type} {DT : Type} {ID : Type} {RID : Type} {SUM : Type} {DESC : Type} {REMS : Type} {CID : Type} {CSUM : Type} {AEV : Type} (tz_utc : TZ) (zoneinfo : TZNAME -> TZ) (gev_start : EVT -> DV) (gev_end : EVT -> DV) (gev_timezone : EVT -> option TZNAME) (extract_datetime : DV -> DV) (dv_is_date : DV -> bool) (dv_is_datetime : DV -> bool) (dv_has_date_attr : DV -> bool) (dv_date_attr : DV -> ATTR) (attr_is_none : ATTR -> bool) (attr_callable : ATTR -> bool) (dv_tzinfo : DV -> option TZ) (dv_astimezone : DV -> TZ -> DV) (dv_replace_tzinfo : DV -> TZ -> DV) (dv_time : DV -> TIME) (time_min : TIME) (time_neb : TIME -> TIME -> bool) (dv_sub : DV -> DV -> TD) (td_days : TD -> Z) (td_of_days : Z -> TD) (td_of_hours : Z -> TD) (td_sub : TD -> TD -> TD) (td_leb : TD -> TD -> bool) (dv_combine : DV -> TIME -> TZ -> DV) (dv_replace_us : DV -> Z -> DV) (dv_timestamp : DV -> Z) (dv_is_none : DV -> bool) (tzname_utc : TZNAME) (dt_fromtimestamp : Z -> TZ -> DT) (get_events : option DT -> option DT -> list EVT) (gev_id : EVT -> option ID) (gev_summary : EVT -> option SUM) (gev_description : EVT -> option DESC) (gev_recurring_event_id : EVT -> option RID) (extract_reminders : EVT -> REMS) (mk_event : option ID -> CID -> CSUM -> option SUM -> option DESC -> option RID -> bool -> REMS -> Z -> Z -> AEV) (self_calendar_id : CID) (self_calendar_summary : CSUM) (self_calendar_timezone : option TZ) (start : option Z) (end_ : option Z) : list AEV :=
+  let start_dt := (match start with Some start => (Some (g_gcsa_ts_to_dt tz_utc dt_fromtimestamp start)) | None => None end) in
+  let end_dt := (match end_ with Some end_ => (Some (g_gcsa_ts_to_dt tz_utc dt_fromtimestamp end_)) | None => None end) in
+  let events_iterable := (get_events start_dt end_dt) in
+  run_for
+    (fun _ e =>
+      let out := @nil AEV in
+      if ((is_none (gev_id e)) || (is_none (gev_summary e)) || (dv_is_none (gev_end e))) then
+        (out, tt, Cont)
+      else
+        let event_zone := (match (gev_timezone e) with Some p1_ => (zoneinfo p1_) | None => (zoneinfo tzname_utc) end) in
+        let is_all_day := (g_gcsa_is_all_day_event tz_utc zoneinfo gev_start gev_end gev_timezone extract_datetime dv_is_date dv_is_datetime dv_has_date_attr dv_date_attr attr_is_none attr_callable dv_tzinfo dv_astimezone dv_replace_tzinfo dv_time time_min time_neb dv_sub td_days td_of_days td_of_hours td_sub td_leb e) in
+        let recurring_event_id := (gev_recurring_event_id e) in
+        let reminders := (extract_reminders e) in
+        let evt_start_dt := (extract_datetime (gev_start e)) in
+        let evt_end_dt := (extract_datetime (gev_end e)) in
+        let zone_for_timestamp :=
+          if is_all_day then
+            let zone_for_timestamp := (match self_calendar_timezone with Some p4_ => p4_ | None => (match (gev_timezone e) with Some p5_ => event_zone | None => (zoneinfo tzname_utc) end) end) in
+            zone_for_timestamp
+          else
+            let zone_for_timestamp := event_zone in
+            zone_for_timestamp in
+        let out := out ++ [(mk_event (gev_id e) self_calendar_id self_calendar_summary (gev_summary e) (gev_description e) recurring_event_id is_all_day reminders (g_gcsa_to_timestamp tz_utc time_min dv_is_datetime dv_tzinfo dv_combine dv_replace_tzinfo dv_astimezone dv_replace_us dv_timestamp evt_start_dt (Some zone_for_timestamp)) (g_gcsa_to_timestamp tz_utc time_min dv_is_datetime dv_tzinfo dv_combine dv_replace_tzinfo dv_astimezone dv_replace_us dv_timestamp evt_end_dt (Some zone_for_timestamp)))] in
+        (out, tt, Cont))
+    (fun _ =>
+      let out := @nil AEV in
+      out)
+    tt events_iterable.
